@@ -1,9 +1,10 @@
 """C15 - tree flatten/rebuild are inverse; tree_update is a non-destructive deep merge.
 
-Protocol (model name tree, see lean/PygModel/TreeDriver.lean).  Trees travel as nested `(D ..)` values; the runner builds
+Protocol (model name tree, see lean/PygModel/TreeDriver.lean; op `updateh` runs the heap model PygModel/TreeHeap.lean).  Trees travel as nested `(D ..)` values; the runner builds
 them in a chosen class (dict / Dict / dictattr), takes deep snapshots of both operands before a call and re-reads them
 afterwards (`mutated ...` replies), and checks `type(result)`.
-tree_to_table / table_to_tree are not modelled in Lean; their inverse law is checked on the implementation only (laws).
+tree_to_table / table_to_tree are modelled (PygModel/TreeTable.lean, ops totable / totree) and compared on every run; their inverse law is
+NOT proved in Lean: it is checked on the implementation (laws) and on the model's outputs by correspondence only.
 """
 import copy as _copy
 from .. import proto
@@ -12,7 +13,7 @@ from ..engine import Finding
 
 ID = 'C15'
 TITLE = 'tree flatten/rebuild are inverse; tree_update is a non-destructive deep merge'
-LEAN_FILES = ['Basic', 'USet', 'Tree', 'TreeDriver', 'USetLemmas', 'TreeLemmas', 'C15']
+LEAN_FILES = ['Basic', 'USet', 'Tree', 'TreeHeap', 'TreeTable', 'TreeDriver', 'USetLemmas', 'TreeLemmas', 'TreeMerge', 'TreeHeapLemmas', 'TreeHeapAbs', 'C15']
 RULE = 'distinct protocol lines on non-empty trees on which the implementation returned a value (or the KeyError/TypeError/ValueError the model predicts)'
 TRUSTED = ['correspondence harness (pv.engine, pv.proto), generators and deep snapshots of pv.props.c15',
            'Lean driver parser/printer (PygModel/Basic.lean, TreeDriver.lean)']
@@ -20,7 +21,7 @@ ASSUMPTIONS = ['python dict semantics (insertion order; d[k]=v overwrites in pla
                'the class of the tree (dict / Dict / dictattr) is not modelled: the runner checks type(result) is type(tree)',
                'leaves are None / ints / strings / lists; the ignore list holds None and strings (in_ uses eq, modelled as equality)',
                'aliasing of leaf objects between operands and result is not modelled (only dict nodes are snapshotted deeply)',
-               'tree_to_table / table_to_tree / dictable(tree, pattern) are checked by an implementation-only inverse law, not modelled in Lean']
+               'tree_to_table / table_to_tree: modelled and sampled (ops totable / totree); the inverse law is an implementation-level law, not a Lean theorem; dictable(tree, pattern) not modelled']
 
 KEYS = ['a', 'b', 'c', 'd', 'e']
 LEAVES = [None, 0, 1, 2, 'x', 'y', [1, 2], [], 'a']
@@ -101,12 +102,52 @@ def generate(rng, tier):
         ig = rng.choice([[], [], [], [None], [None, 'x']])
         cls = rng.choice([0, 1, 2])
         tag = 'update-self' if u is t else 'update-empty' if not u else 'update-ignore' if ig else 'update'
-        yield dict(tag=tag, lines=['(tree update %s %s %s %d)' % (enc(t), enc(u), enc(ig), cls)])
+        yield dict(tag=tag, lines=['(tree update %s %s %s %d)' % (enc(t), enc(u), enc(ig), cls),
+                                   '(tree updateh %s %s %s %d)' % (enc(t), enc(u), enc(ig), cls)])   # the heap model
+    for c in gen_table_cases(rng, tier):
+        yield c
     n = 150 if tier == 'quick' else 3000
     for _ in range(n):
         t = rand_tree(rng, 3, allow_empty=True)
         u = rand_tree(rng, 2, allow_empty=True)
-        yield dict(tag='empty-branches', lines=['(tree items %s)' % enc(t), '(tree update %s %s (L) 0)' % (enc(t), enc(u))])
+        yield dict(tag='empty-branches', lines=['(tree items %s)' % enc(t), '(tree update %s %s (L) 0)' % (enc(t), enc(u)), '(tree updateh %s %s (L) 0)' % (enc(t), enc(u))])
+
+
+def rand_pattern(rng, w):
+    """w segments, at least one wildcard, distinct names; literals from KEYS (so that they sometimes match)"""
+    segs = []
+    for i in range(w):
+        segs.append('%%n%d' % i if rng.random() < 0.7 else rng.choice(KEYS + ['1', 'x']))   # '1' vs the leaf 1: no match
+    if not any(s.startswith('%') for s in segs):
+        segs[rng.randrange(w)] = '%n9'
+    return '/'.join(segs)
+
+
+def gen_table_cases(rng, tier):
+    n = 300 if tier == 'quick' else 8000
+    for _ in range(n):
+        w = rng.choice([1, 2, 3, 4])
+        pat = rand_pattern(rng, w)
+        t = rand_tree(rng, rng.choice([1, 2, 3]))
+        yield dict(tag='totable-%d' % w, lines=['(tree totable %s %s)' % (enc(t), enc(pat))])
+        if w < 2:
+            continue
+        names = [s[1:] for s in pat.split('/') if s.startswith('%')]
+        rows, seen = [], set()
+        segs = pat.split('/')
+        for _ in range(rng.choice([1, 2, 3, 5])):
+            row = {}
+            for i, sg in enumerate(segs):
+                if sg.startswith('%'):
+                    row[sg[1:]] = rng.choice(KEYS[:3]) if i < w - 1 else rng.choice(['p', 'q', 1, 2, None])
+            key = tuple(row[sg[1:]] if sg.startswith('%') else sg for sg in segs[:-1])
+            if key not in seen:
+                seen.add(key)
+                rows.append(row)
+        if rng.random() < 0.1 and names:
+            rows.append({k: v for k, v in rows[0].items() if k != names[0]})       # unbound name -> KeyError
+        # rows with unique paths: the tree, and the table read back from it with the same pattern
+        yield dict(tag='totree-%d' % w, lines=['(tree totree %s %s)' % (enc(pat), enc(rows))])
 
 
 def _get(t, p):
@@ -148,7 +189,7 @@ def run_line(state, sx):
     if op == 'get':
         t = proto.dec(args[0])
         return 'ok ' + enc(_plain(tree_getitem(t, list(proto.dec(args[1])))))
-    if op == 'update':
+    if op in ('update', 'updateh'):       # updateh: same call; the model side runs the heap machine
         cls = int(args[3]) if len(args) > 3 else 0
         t, u, ig = build(proto.dec(args[0]), cls), build(proto.dec(args[1]), cls), proto.dec(args[2])
         st, su = snapshot(t), snapshot(u)
@@ -166,6 +207,19 @@ def run_line(state, sx):
             if _plain(alt) != _plain(res) or type(alt) is not Dict:
                 return 'Dict.__add__ differs from tree_update: %s' % enc(_plain(alt))
         return 'ok ' + enc(_plain(res))
+    if op == 'totable':
+        from pyg_base import tree_to_table
+        t, pat = proto.dec(args[0]), proto.dec(args[1])
+        names = [s[1:] for s in pat.split('/') if s.startswith('%')]
+        st = snapshot(t)
+        rows = tree_to_table(t, pat)
+        if snapshot(t) != st:
+            return 'mutated tree: %s' % enc(_plain(t))
+        return 'ok ' + enc([tuple(r.get(n) for n in names) for r in rows])
+    if op == 'totree':
+        from pyg_base._table_to_tree import table_to_tree
+        pat, rows = proto.dec(args[0]), proto.dec(args[1])
+        return 'ok ' + enc(_plain(table_to_tree(None, pat, rows)))
     return 'bad-op'
 
 
@@ -180,6 +234,10 @@ def compare(case, i, line, ir, mr):
         return None
     if ir.startswith('mutated') or ir.startswith('wrongtype') or ir.startswith('Dict.__add__'):
         return 'operand modified / wrong class: %s' % ir
+    if line.startswith('(tree totable') and ir.startswith('ok ') and mr.startswith('ok '):
+        a, b = proto.parse(ir[3:]), proto.parse(mr[3:])
+        if isinstance(a, list) and isinstance(b, list) and sorted(map(repr, a)) == sorted(map(repr, b)):
+            return ('divergence', 'tree_to_table: same rows in another order (the statement does not pin the order): implementation %s, model %s' % (ir, mr))
     if case.get('tag', '').endswith('empty-branches'):
         return ('divergence', 'empty branches are outside the statement: implementation %s, model %s' % (ir, mr))
     return 'implementation %s, specification (model) %s' % (ir, mr)
